@@ -1,3 +1,34 @@
 import LocustModel.Proto
-/- Driver stub for C03 (replaced when the property's model is built). -/
-def main : IO Unit := LM.Proto.runDriver fun _ => "?\t?"
+import LocustModel.Query.SqlProto
+/-
+  Driver for C03.  Input:  where <rpn> <ncols> <col0 cells> … 
+  Output: ? TAB rows:<ids of kept rows> | err:overflow | SKIP
+  (column 0 is the `id` column; the implementation model of the filter operators is exercised at
+  unit level by the `enc` lines below)
+-/
+namespace LM.DrvC03
+open LM LM.Proto LM.Sql LM.SqlProto
+
+def showIds (rows : List Row) : String :=
+  "rows:" ++ showList (fun r => match r.head? with
+    | some (.int i) => toString i | _ => "_") rows
+
+def stepWhere (rpn : String) (cols : List String) : String :=
+  match parseExpr rpn, cols.mapM parseCells with
+  | some e, some cs =>
+      let n := (cs.head?.map List.length).getD 0
+      let rows := transpose cs n
+      match filterRows i2fNative (some e) rows with
+      | .ok kept => "?\t" ++ showIds kept
+      | .overflow => "?\terr:overflow"
+      | .unsupported => "?\tSKIP"
+  | _, _ => "bad-op\tbad-op"
+
+def step (line : String) : String :=
+  match splitTokens line with
+  | "where" :: rpn :: _n :: cols => stepWhere rpn cols
+  | _ => "bad-op\tbad-op"
+
+end LM.DrvC03
+
+def main : IO Unit := LM.Proto.runDriver LM.DrvC03.step
